@@ -8,7 +8,9 @@
         and the shape of the state after the call;
      2. key_ids (the variables flagged as answer keys) and reading them;
      3. division_grid_compose;
-     4. label classes vs. connected groups: reusable graph lemmas. *)
+     4. label classes vs. connected groups: reusable graph and list lemmas;
+     5. post_division_defined: the call returns a state (graph with a vertex, one label per vertex, roots None
+        or in-range ints). *)
 From Coq Require Import ZArith List Bool Arith Lia.
 From Cspuz Require Import Lib.PyErr Core.Expr Core.Program Core.Build Graph.GraphModel Graph.ReachProofs
      Graph.Division Graph.DivisionEval Graph.DivisionProofs Graph.DivisionMain
